@@ -596,6 +596,13 @@ func TestC08(t *testing.T) {
 			Bubble(t, func() { c08RawCheck(c, rk) })
 			return
 		}
+		var sk c08RawSchedCase
+		if _, err := ev.LoadReplay(&sk); err == nil && sk.Bound > 0 && sk.RawSched {
+			schedRoundRobin = sk.RR
+			x := runSched(t, sk.Prefix, nil, 20000, func(s *bsched.Sched) any { return c08RawSchedBody(sk, s) })
+			fmt.Println("replay:", c08RawSchedJudge(c, sk, x), schedLine(x))
+			return
+		}
 		var ck c13Case
 		if _, err := ev.LoadReplay(&ck); err == nil && len(ck.Calls) > 0 {
 			c13TestName = "TestC08"
@@ -678,7 +685,8 @@ func TestC08(t *testing.T) {
 	// the same clause under concurrency: two valid compressed calls run under the controlled scheduler
 	// after a corrupt one went through the shared handler (both default schedulers, delay bound 1)
 	c13TestName = "TestC08"
-	for _, k := range c13AfterCorrupt() {
+	concurrent := c13AfterCorrupt()
+	for _, k := range concurrent {
 		idx++
 		if !ev.Mine(idx) || c.Expired() {
 			continue
@@ -686,6 +694,24 @@ func TestC08(t *testing.T) {
 		c13Explore(t, c, k)
 	}
 	c13TestName = "TestC13"
+	// two requests compressed with a custom algorithm served concurrently by one handler
+	for _, p := range AllProtos {
+		for _, kind := range []Kind{KUnary, KServer} {
+			if kind == KServer && !thorough {
+				continue
+			}
+			for _, rr := range []bool{false, true} {
+				subs := 3
+				for sub := 0; sub < subs; sub++ {
+					idx++
+					if !ev.Mine(idx) || c.Expired() {
+						continue
+					}
+					c08RawSchedExplore(t, c, c08RawSchedCase{Proto: p, Kind: kind, RR: rr, Bound: 2, Sub: sub, Subs: subs})
+				}
+			}
+		}
+	}
 	// histories
 	n := 3
 	if thorough {
@@ -705,4 +731,135 @@ func TestC08(t *testing.T) {
 			}
 		}
 	}
+}
+
+// c08RawSchedCase: two raw requests, each compressed with the custom algorithm
+// (whose methods are yield points), are served concurrently by one handler
+// under the controlled scheduler; only handler-side code runs, so the delay
+// bound can be 2.
+type c08RawSchedCase struct {
+	Proto    Proto `json:"proto"`
+	Kind     Kind  `json:"kind"`
+	RR       bool  `json:"rr,omitempty"`
+	Bound    int   `json:"bound"`
+	RawSched bool  `json:"raw_sched"`
+	Sub      int   `json:"sub"`
+	Subs     int   `json:"subs"`
+	Prefix   []int `json:"prefix,omitempty"`
+}
+
+func (k c08RawSchedCase) key() string {
+	pol := "rtb"
+	if k.RR {
+		pol = "rr"
+	}
+	return fmt.Sprintf("raw-concurrent/%s/%s/%s/d%d/%d-of-%d", k.Proto, k.Kind, pol, k.Bound, k.Sub, k.Subs)
+}
+
+type c08RawSchedObs struct {
+	Got    [2]string
+	Want   [2]string
+	Stacks string
+}
+
+func c08RawSchedBody(k c08RawSchedCase, s *bsched.Sched) any {
+	obs := &c08RawSchedObs{}
+	d, co := XorAlg(0xA1)
+	h := NewHandler(k.Kind, func(ctx context.Context, st HStream) error {
+		var got []byte
+		for {
+			m, err := st.Receive()
+			if err != nil {
+				break
+			}
+			got = append(got, m.Value...)
+		}
+		return st.Send(&BV{Value: append([]byte{'r'}, got...)})
+	}, connect.WithCompression("rev1", d, co), connect.WithCompressMinBytes(1))
+	encH, accH := encHeaders(k.Proto, k.Kind)
+	for i := 0; i < 2; i++ {
+		i := i
+		value := Payload(40+30*i, byte('A'+i))
+		obs.Want[i] = fmt.Sprintf("code=0 msgs=[%x]", append([]byte{'r'}, value...))
+		s.Go(fmt.Sprintf("t%d", i), func() {
+			z := XorEncode(0xA1, codecMarshal(false, &BV{Value: value}))
+			body := z
+			if !(k.Proto == PConnect && k.Kind == KUnary) {
+				body = refwire.Envelope(1, z)
+			}
+			req := RawRequest(context.Background(), k.Proto, k.Kind, false, bytes.NewReader(body))
+			req.Header.Set(encH, "rev1")
+			req.Header.Set(accH, "rev1")
+			rec := httptest.NewRecorder()
+			h.ServeHTTP(rec, req)
+			status, header, rbody, trailer := recParts(rec)
+			rs := refwire.DecodeResponse(wireProto(k.Proto), k.Kind == KUnary, req.Header.Get("Content-Type"), status, header, rbody, trailer, AnyDecompress)
+			var msgs []string
+			for _, m := range rs.Msgs {
+				var bv BV
+				_ = proto.Unmarshal(m, &bv)
+				msgs = append(msgs, fmt.Sprintf("%x", bv.Value))
+			}
+			obs.Got[i] = fmt.Sprintf("code=%d msgs=%v", rs.End.Code, msgs)
+			if len(rs.Problems) > 0 || rs.End.Code != 0 {
+				obs.Got[i] += fmt.Sprintf(" message=%q problems=%v", rs.End.Message, rs.Problems)
+			}
+		})
+	}
+	s.Run()
+	if s.Deadlock || s.Horizon {
+		obs.Stacks = bsched.AllStacks()
+	}
+	s.Release()
+	return obs
+}
+
+func c08RawSchedJudge(c *ev.Collector, k c08RawSchedCase, x *bsched.Exec) string {
+	obs := x.Obs.(*c08RawSchedObs)
+	kk := k
+	kk.RawSched = true
+	kk.Prefix = x.TrimmedChoices()
+	tags := []string{"proto=" + k.Proto.String(), "kind=" + k.Kind.String(), "concurrent", "custom-algorithm"}
+	if x.Horizon {
+		c.NotExhaustive("step horizon reached in " + k.key())
+		return "horizon"
+	}
+	if x.Deadlock {
+		c.Violation("TestC08", "terminates", "deadlock", tags, kk, "%s [%s]: blocked threads %v\n%s", k.key(), schedLine(x), x.Blocked, trimStacks(obs.Stacks))
+		return "deadlock"
+	}
+	for i := 0; i < 2; i++ {
+		if obs.Got[i] != obs.Want[i] {
+			c.Violation("TestC08", "lossless", "differs", tags, kk, "%s [%s]: request %d (compressed with the custom algorithm, served while the other request was in progress) was answered %s; alone it is answered %s\n  schedule: %v", k.key(), schedLine(x), i, obs.Got[i], obs.Want[i], traceOf(x, 300))
+			return "violation"
+		}
+	}
+	return "ok"
+}
+
+func c08RawSchedExplore(t *testing.T, c *ev.Collector, k c08RawSchedCase) {
+	schedRoundRobin = k.RR
+	defer func() { schedRoundRobin = false }()
+	c.Case(k.key(), true)
+	e := &bsched.Explorer{
+		Delay: true,
+		Bound: k.Bound,
+		Shard: k.Sub, Shards: k.Subs,
+		Run: func(prefix []int, expect []bsched.Point) *bsched.Exec {
+			return runSched(t, prefix, expect, 20000, func(s *bsched.Sched) any { return c08RawSchedBody(k, s) })
+		},
+		Stop: c.Expired,
+	}
+	e.OnExec = func(x *bsched.Exec) { c.Outcome(c08RawSchedJudge(c, k, x)) }
+	e.Explore()
+	for _, d := range e.Divergences {
+		c.HarnessError("replay divergence in %s: %s", k.key(), d)
+	}
+	if e.Capped {
+		c.NotExhaustive("exploration of " + k.key() + " stopped by the time budget")
+	}
+	c.AddStates(e.States)
+	c.AddTransitions(e.Transitions)
+	c.AddTraces(e.Executions)
+	c.AddExtra("executions", e.Executions)
 }
